@@ -34,7 +34,7 @@ def gen_class(rng, name, depth, counter):
             kind = rng.choice(['func', 'func', 'classmethod', 'staticmethod'])
             members.append([nm, [kind, rng.random() < 0.7, rng.random() < 0.12, rng.random() < 0.15]])
         elif r < 0.6:
-            members.append([nm, ['property', rng.random() < 0.7, rng.random() < 0.5]])
+            members.append([nm, ['property', rng.random() < 0.6, rng.random() < 0.6, rng.random() < 0.6]])   # getter annotated?, setter?, setter annotated?
         elif r < 0.75 and depth > 0:
             members.append([f'N{len(members)}', ['nested', gen_class(rng, f'N{len(members)}', depth - 1, counter)]])
         elif r < 0.85:
@@ -66,7 +66,7 @@ def coq_cls(c, counter):
         elif k == 'property':
             counter[0] += 2
             g = '(Some (Plain %d %s false))' % (counter[0] - 1, 'true' if m[1] else 'false')
-            s = '(Some (Plain %d %s false))' % (counter[0], 'true' if m[1] else 'false') if m[2] else 'None'
+            s = '(Some (Plain %d %s false))' % (counter[0], 'true' if m[3] else 'false') if m[2] else 'None'
             t = '(MProperty %s %s None)' % (g, s)
         elif k == 'nested':
             t = '(MNested %s)' % coq_cls(m[1], counter)
